@@ -168,11 +168,13 @@ func (d *DataChannel) open(sctpTransport *SCTPTransport) error { //nolint:cyclop
 	if d.id == nil {
 		// avoid holding lock when generating ID, since id generation locks
 		d.mu.Unlock()
+		verifYield("dcid:open:before-generate")
 		var dcID *uint16
 		err := d.sctpTransport.generateAndSetDataChannelID(d.sctpTransport.dtlsTransport.role(), &dcID)
 		if err != nil {
 			return err
 		}
+		verifYield("dcid:open:before-store")
 		d.mu.Lock()
 		d.id = dcID
 	}
